@@ -14,13 +14,18 @@ import (
 	"connectrpc.com/connect"
 	"github.com/streamingfast/bstream"
 	bsstream "github.com/streamingfast/bstream/stream"
+	"github.com/streamingfast/dstore"
+	"github.com/streamingfast/substreams"
 	"github.com/streamingfast/substreams/orchestrator/plan"
+	"github.com/streamingfast/substreams/orchestrator/work"
 	pbssinternal "github.com/streamingfast/substreams/pb/sf/substreams/intern/v2"
 	pbsubstreamsrpc "github.com/streamingfast/substreams/pb/sf/substreams/rpc/v2"
 	pbsubstreams "github.com/streamingfast/substreams/pb/sf/substreams/v1"
 	"github.com/streamingfast/substreams/pipeline"
 	"github.com/streamingfast/substreams/pipeline/exec"
 	"github.com/streamingfast/substreams/service"
+	"github.com/streamingfast/substreams/service/config"
+	"go.uber.org/zap"
 )
 
 func init() { register("validate", runValidate) }
@@ -164,6 +169,10 @@ type voutcome struct {
 	Panic  string `json:"panic"`
 	Hung   bool   `json:"hung"`
 	HeapMB uint64 `json:"heapMB"`
+	// what the REAL Tier1Service entry point (TestBlocks = graph construction + blocks(), mapped by the real toConnectError)
+	// answers for a request this step sequence rejects after the graph stage ("" = not asked)
+	RealCode  string `json:"realCode"`
+	RealPanic string `json:"realPanic"`
 }
 
 // tier1Steps: the request pipeline in tier1's order and with tier1's error wrapping.
@@ -208,6 +217,39 @@ func tier1Steps(req *pbsubstreamsrpc.Request) (o voutcome) {
 	return voutcome{Stage: "accepted"}
 }
 
+var realSvc *service.Tier1Service
+
+// realTier1: the same request through the real in-process tier1 entry point. Only asked for requests without a start cursor
+// (the test constructor of the service has no cursor resolver) that the step sequence rejects at or after request resolution.
+func realTier1(req *pbsubstreamsrpc.Request) (code, pan string) {
+	if realSvc == nil {
+		dir, _ := os.MkdirTemp("", "vval-")
+		base, _ := dstore.NewStore(dir, "zst", "zstd", true)
+		rc := config.RuntimeConfig{SegmentSize: 10, DefaultParallelSubrequests: 1, BaseObjectStore: base, DefaultCacheTag: "tag", MaxJobsAhead: 10,
+			WorkerFactory: func(*zap.Logger) work.Worker { return nil }}
+		realSvc = service.TestNewService(rc, 12, func(ctx context.Context, h bstream.Handler, start int64, stop uint64, _ string, _ bool, _ bool, _ *zap.Logger, _ ...bsstream.Option) (service.Streamable, error) {
+			return nil, fmt.Errorf("verif: request reached execution")
+		})
+	}
+	var err error
+	ctx, cancel := context.WithTimeout(context.Background(), 2*time.Second)
+	defer cancel()
+	pan = guard(func() {
+		err = realSvc.TestBlocks(ctx, false, req, func(substreams.ResponseFromAnyTier) error { return nil })
+	})
+	if pan != "" {
+		return "", pan
+	}
+	if err == nil {
+		return "ok", ""
+	}
+	var ia *bsstream.ErrInvalidArg
+	if errors.As(err, &ia) {
+		return "invalid_argument", ""
+	}
+	return connect.CodeOf(service.VerifToConnectError(context.Background(), err)).String(), ""
+}
+
 func tier2Steps(req *pbsubstreamsrpc.Request, stage uint32) (o voutcome) {
 	r2 := &pbssinternal.ProcessRangeRequest{OutputModule: req.OutputModule, Modules: req.Modules, Stage: stage, MeteringConfig: "null://",
 		SegmentSize: 10, SegmentNumber: 1, BlockType: blockType, StateStore: "/tmp/x", MergedBlocksStore: "/tmp/y"}
@@ -249,6 +291,7 @@ func watched(f func() voutcome) voutcome {
 }
 
 func runValidate(a *args) error {
+	setupSystem() // registers the verifvm module runtime (SUBSTREAMS_WASM_RUNTIME names it)
 	if a.in == "" {
 		return fmt.Errorf("-in <TLC export> required")
 	}
@@ -268,7 +311,14 @@ func runValidate(a *args) error {
 		if err := json.Unmarshal([]byte(inner), &q); err != nil {
 			return fmt.Errorf("export record: %w", err)
 		}
-		o1 := watched(func() voutcome { return tier1Steps(materialise(q)) })
+		o1 := watched(func() voutcome {
+			rq := materialise(q)
+			o := tier1Steps(rq)
+			if rq != nil && rq.StartCursor == "" && (o.Stage == "details" || o.Stage == "startisstop" || o.Stage == "startblock" || o.Stage == "plan") {
+				o.RealCode, o.RealPanic = realTier1(rq)
+			}
+			return o
+		})
 		o2 := watched(func() voutcome { return tier2Steps(materialise(q), 0) })
 		a.emitNT(map[string]any{"k": "req", "req": q, "tier1": o1, "tier2": o2}, o1.Stage != "validate")
 		if hangs >= 4 {
@@ -307,7 +357,14 @@ func runValidate(a *args) error {
 			}
 			q.Mods = append(q.Mods, m)
 		}
-		o1 := watched(func() voutcome { return tier1Steps(materialise(q)) })
+		o1 := watched(func() voutcome {
+			rq := materialise(q)
+			o := tier1Steps(rq)
+			if rq != nil && rq.StartCursor == "" && (o.Stage == "details" || o.Stage == "startisstop" || o.Stage == "startblock" || o.Stage == "plan") {
+				o.RealCode, o.RealPanic = realTier1(rq)
+			}
+			return o
+		})
 		small := vreq{Env: q.Env, Mods: q.Mods[:1]} // log only the head of big requests
 		a.emitNT(map[string]any{"k": "bigreq", "req": small, "nmods": nm, "tier1": o1, "tier2": voutcome{Stage: "skipped", Code: "invalid_argument"}}, o1.Stage != "validate")
 	}
